@@ -994,6 +994,9 @@ func runC32() int {
 		}
 	}
 	tap := tapStdout()
+	// the json-stream carrier of the same Bulker (c32_stream.go): a small family, run first so
+	// that a time cut never drops it
+	streamCases, streamUndecodable, streamComplete := c.streamed(ctx, states["in-use"], "in-use")
 	complete := phasedFor(r, len(jobs), func(i int) int { return len(jobs[i].elems) }, func(i int) {
 		j := jobs[i]
 		solo, err := soloRun(ctx, states[j.state], j.elems, nil)
@@ -1054,6 +1057,7 @@ func runC32() int {
 		w.Close()
 	}
 
+	complete = complete && streamComplete
 	tap.close()
 	if tap != nil && tap.count > 0 {
 		for site, n := range tap.sites {
@@ -1102,6 +1106,8 @@ func runC32() int {
 		"fault_statements":    c.faultStmts.snapshot(),
 		"samples":             c.samples.List(),
 		"exhaustive":          complete,
+		"json_stream_carrier": map[string]any{"bulks_compared_with_json_carrier": streamCases, "streams_with_an_undecodable_document": streamUndecodable,
+			"rule": "every bulk of length<=2 over the 6-element core menu x {atomic, sequential} on the in-use start state, sent through the real JSON STREAM handler (…bulk+json-stream) and the same Bulker: results and ledger equal those of the same bulk sent as a JSON array; then the same bulks with a document that cannot be decoded as an element (CREATE_TRANSACTION with a timestamp that is not a date) inserted at every position: atomic => database unchanged, sequential => the ledger is that of the elements before it"},
 		"rule": "evaluation = one bulk posted through the real JSON bulk handler and Bulker over the real ledger controller stack on a clone of a pgsim start state; space = every bulk of length<=2 over the 16-element menu (create transaction by postings/script/with reference/with idempotency key, add and delete metadata on account and transaction, revert; failing elements: insufficient funds, unknown transaction, already reverted, reference conflict, invalid postings, invalid target type) plus every bulk of length 3 over the " +
 			"6-element core menu (quick) / the full menu (thorough), x start state {pristine (initializing), in-use, just imported} x {sequential, sequential+continueOnFailure, atomic, atomic+continueOnFailure, parallel, parallel+continueOnFailure, atomic+parallel}; " +
 			"oracle: one result per element; sequential and atomic: result i belongs to element i and equals (data and log id, clock fields removed) what the same request returns when the elements are applied one by one through the plain controller on a clone (differential: as separate requests for sequential bulks, as separate calls inside one Controller.BeginTX transaction for atomic bulks); atomic: any failure => database dump unchanged, no failure => ledger reads as after applying all; sequential: ledger reads as after applying elements up to the first failure (all, with continueOnFailure), later elements report errors; " +
